@@ -15,19 +15,21 @@ Definition reaches_add_watch (p : program) (s : sk) : bool :=
   existsb is_add_watch (acts_in s) ||
   existsb (fun f => existsb is_add_watch (acts_of (reach_fuel p) p f)) (calls_in s).
 
-Definition is_call (f : string) (s : sk) : bool := match s with SCall g => String.eqb f g | _ => false end.
+(* a call that (transitively) reaches sendEvent counts as the send: the reader may keep its buffer walk in a helper *)
+Definition sends (p : program) (g : string) : bool := str_mem "shared.sendEvent" (reach (reach_fuel p) p g).
+Definition is_send_call (p : program) (s : sk) : bool := match s with SCall g => sends p g | _ => false end.
 
-(* in a statement list: everything after the first call of sendEvent *)
-Fixpoint after_send (l : list sk) : option (list sk) :=
+(* in a statement list: everything after the first call that sends the event *)
+Fixpoint after_send (p : program) (l : list sk) : option (list sk) :=
   match l with
   | [] => None
-  | s :: r => if is_call "shared.sendEvent" s then Some r else after_send r
+  | s :: r => if is_send_call p s then Some r else after_send p r
   end.
 
-(* every statement list inside s in which sendEvent is called: nothing after that call reaches inotify_add_watch *)
+(* every statement list inside s in which the event is sent: nothing after that call reaches inotify_add_watch *)
 Fixpoint no_add_after_send (p : program) (s : sk) : bool :=
   match s with
-  | SSeq l => (match after_send l with Some r => negb (existsb (reaches_add_watch p) r) | None => true end)
+  | SSeq l => (match after_send p l with Some r => negb (existsb (reaches_add_watch p) r) | None => true end)
               && forallb (no_add_after_send p) l
   | SIf bs => forallb (no_add_after_send p) bs
   | SLoop b => no_add_after_send p b
@@ -35,10 +37,13 @@ Fixpoint no_add_after_send (p : program) (s : sk) : bool :=
   | _ => true
   end.
 
-Definition calls_send_event (p : program) : bool := existsb (String.eqb "shared.sendEvent") (calls_in (body_of p "inotify.readEvents")).
+(* the functions the reader goroutine runs *)
+Definition reader_funs (p : program) : list string := reach (reach_fuel p) p "inotify.readEvents".
+
+Definition calls_send_event (p : program) : bool := str_mem "shared.sendEvent" (reader_funs p).
 
 Definition register_before_send (p : program) : bool :=
-  calls_send_event p && no_add_after_send p (body_of p "inotify.readEvents").
+  calls_send_event p && forallb (fun f => no_add_after_send p (body_of p f)) (reader_funs p).
 
 (* the check can fail *)
 Example register_after_send_rejected :
@@ -53,4 +58,20 @@ Example register_before_send_accepted :
     [("inotify.readEvents", SLoop (SSeq [SCall "inotify.handleEvent"; SCall "shared.sendEvent"; SIf [SReturn; SSeq []]]));
      ("inotify.handleEvent", SSeq [SAct (ALock MuMain); SCall "inotify.register"; SAct (AUnlock MuMain)]); ("shared.sendEvent", SSeq []);
      ("inotify.register", SAct (ASyscall "InotifyAddWatch"))] = true.
+Proof. vm_compute. reflexivity. Qed.
+
+(* the buffer walk in a helper of its own: still accepted; a registration after the helper's send: rejected *)
+Example register_before_send_helper_accepted :
+  register_before_send
+    [("inotify.readEvents", SLoop (SSeq [SAct AFileRead; SCall "inotify.handleBuffer"]));
+     ("inotify.handleBuffer", SLoop (SSeq [SCall "inotify.handleEvent"; SCall "shared.sendEvent"]));
+     ("inotify.handleEvent", SSeq [SAct (ALock MuMain); SCall "inotify.register"; SAct (AUnlock MuMain)]); ("shared.sendEvent", SSeq []);
+     ("inotify.register", SAct (ASyscall "InotifyAddWatch"))] = true.
+Proof. vm_compute. reflexivity. Qed.
+Example register_after_helper_send_rejected :
+  register_before_send
+    [("inotify.readEvents", SLoop (SSeq [SAct AFileRead; SCall "inotify.handleBuffer"; SCall "inotify.register"]));
+     ("inotify.handleBuffer", SLoop (SSeq [SCall "inotify.handleEvent"; SCall "shared.sendEvent"]));
+     ("inotify.handleEvent", SSeq []); ("shared.sendEvent", SSeq []);
+     ("inotify.register", SAct (ASyscall "InotifyAddWatch"))] = false.
 Proof. vm_compute. reflexivity. Qed.
